@@ -59,6 +59,11 @@ def inputs(ctx):
     near = sorted({c + s * e for c in (0.0, 0.5, 1.0) for e in eps for s in (1, -1) if 0.0 <= c + s * e <= 1.0} | {1e-200, 2.0 ** -600, 5e-324, 1e-308, 1e-17})
     partners = [0.0, 1.0, 0.5, 0.25, 0.75, 1e-200, 2.0 ** -11, 1 - 2.0 ** -11, 0.3]
     tol_pairs = [(a, b) for a in near for b in partners + [1.0 - a, min(1.0, 1.0 - a + 2.0 ** -11), max(0.0, 1.0 - a - 2.0 ** -11), a]]
+    # sums within one rounding of the branch point 1: the largest/smallest doubles next to 1 - b
+    for b in [0.75, 0.5, 0.625, 0.9375, 0.7, 0.9, 0.3, 0.1, 0.25] + [rng_b / 16 for rng_b in range(1, 16)]:
+        for a in (math.nextafter(1.0 - b, 0.0), math.nextafter(1.0 - b, 2.0), 1.0 - b):
+            if 0.0 <= a <= 1.0:
+                tol_pairs.append((a, b))
     tol_pairs += [(b, a) for a, b in tol_pairs]
     return grid, pairs, rnd, special + tol_pairs
 
@@ -76,7 +81,11 @@ def run(ctx, build, verdict, ev):
         lits = []
         for a, b in allpairs:  # scalar mode
             with np.errstate(all="ignore"):
-                r = float(norm.compute(a, b))
+                try:
+                    r = float(norm.compute(a, b))
+                except Exception as ex:  # noqa  (a norm never raises on floats)
+                    verdict.add_violation(f"{name}:exception", f"{name}.compute({a!r},{b!r}) raises {type(ex).__name__}: {ex}", {"norm": name, "a": a, "b": b})
+                    continue
             lits.append(f"({vlib.fhex(a)}, {vlib.fhex(b)}, {vlib.fhex(r)}, true)")
             index.append((name, "scalar", a, b, r))
         # array mode: 1-d elementwise, and column-against-row broadcasting as Activated.membership uses it
@@ -213,7 +222,13 @@ def oracle(ctx, verdict, fl, grid, extra=()):
             if not (abs(r - want) <= tol or abs(r - want_f) <= tol):
                 verdict.add_violation(f"{name}:formula", f"{name}.compute({a!r},{b!r}) = {r!r}, documented formula gives {want!r}", {"norm": name, "a": a, "b": b, "got": r, "want": want})
                 n += 1
-            elif name in TNORMS and b == 1.0 and abs(r - a) > tol and a > 2.0 ** -52:
+            else:
+                with np.errstate(all="ignore"):
+                    rba = float(norm.compute(b, a))
+                if abs(r - rba) > tol:  # commutativity holds exactly for every operand pair, rounding included (a + b, a * b, min, max are symmetric)
+                    verdict.add_violation(f"{name}:comm", f"{name} not commutative: compute({a!r},{b!r}) = {r!r} but compute({b!r},{a!r}) = {rba!r}", {"norm": name, "a": a, "b": b, "got": r, "swapped": rba})
+                    n += 1
+            if name in TNORMS and b == 1.0 and abs(r - a) > tol and a > 2.0 ** -52 and abs(r - want) <= tol:
                 verdict.add_violation(f"{name}:identity", f"{name}.compute({a!r},1) = {r!r}", {"norm": name, "a": a, "b": b})
                 n += 1
     for s, t in DUALS:
